@@ -300,6 +300,13 @@ func runUntilDrainedAfter(s *sim.CoreSim, cfg sim.CoreCfg, fs *sim.FateScript, a
 	last, lastAt := coreSignature(s), s.Now()
 	for err == nil && !s.Stats.Done {
 		err = s.Run(s.Now() + 20_000)
+		// a reader that is stalled right now is a fault in progress (a scripted
+		// stall begins whenever its byte count is reached, however late)
+		for i := 0; i < 2; i++ {
+			if u := s.ReaderPausedUntil(i); u > s.Now() {
+				lastAt = max(lastAt, s.Now())
+			}
+		}
 		if sig := coreSignature(s); sig != last {
 			last, lastAt = sig, s.Now()
 			continue
